@@ -1,13 +1,144 @@
 import Thanos.Common.Parse
+import Thanos.Model.Prune
 /-
   Line-protocol driver of the `proxy` family (C03 C05 C06 C17).
   One request per line, one answer per line; every line is self-contained.
+
+  C05 grammar (strings hex encoded, `-` = empty list / empty string, `_` = empty label set):
+    matcher  := <ty>:<name>:<value>:<acc>     ty 0 "=" 1 "!=" 2 "=~" 3 "!~"; acc = values ('v'<hex>, ',' separated)
+                                              of the case's universe the regex accepts
+    matchers := matcher (';' matcher)* | '-'
+    dbg      := matchers ('/' matchers)* | '-'
+    labels   := <name>=<value> (',' …)* | '_'
+    sets     := labels ('/' labels)* | '-'
+    client   := <mint>:<maxt>:<filterOK>:<isLocal>:<addr>:<sets>:<raw series, ignored by the model>
+    clients  := client ('|' client)* | '-'
+  ops:
+    prune.lsm    <matchers> <sets>                                   -> 1 | 0
+    prune.store  <mint> <maxt> <matchers> <dbg> <client>             -> ok|time|local|addr|extlabels|filter
+    prune.ext    <matchers> <labels>                                 -> nomatch | ok <kept matchers>
+    prune.series <mint> <maxt> <matchers> <sel> <abort> <dbg> <clients>
+                                                 -> none|invalid|unavailable|ok <store idx,…> <kept matchers>
 -/
 open Thanos Thanos.Parse
 
 namespace Thanos.Driver.Proxy
 
-def handle : List String → String
-  | _ => "bad-op"
+/-! ### C05 -/
+section prune
+open Thanos.Prune
+
+def parseBool? (s : String) : Option Bool :=
+  if s = "1" then some true else if s = "0" then some false else none
+
+def parseMType? (s : String) : Option MType :=
+  if s = "0" then some .eq else if s = "1" then some .neq
+  else if s = "2" then some .re else if s = "3" then some .nre else none
+
+def showMType : MType → String
+  | .eq => "0" | .neq => "1" | .re => "2" | .nre => "3"
+
+/-- an element of a regex truth table: `v` followed by the hex of the value (`v` alone = "") -/
+def accVal? (s : String) : Option String :=
+  match s.toList with
+  | 'v' :: r => do
+    let bs ← hexDecodeAux r
+    String.fromUTF8? (ByteArray.mk bs.toArray)
+  | _ => none
+
+def parseMatcher? (s : String) : Option Matcher :=
+  match splitChar ':' s with
+  | [ty, n, v, acc] => do
+    let ty ← parseMType? ty
+    let n ← hexString? n
+    let v ← hexString? v
+    let acc ← (listOf ',' acc).mapM accVal?
+    pure { ty := ty, name := n, value := v, acc := fun x => acc.contains x }
+  | _ => none
+
+def parseMatchers? (s : String) : Option (List Matcher) := (listOf ';' s).mapM parseMatcher?
+
+def parseDbg? (s : String) : Option (List (List Matcher)) := (listOf '/' s).mapM parseMatchers?
+
+def parseLabel? (s : String) : Option (String × String) :=
+  match splitChar '=' s with
+  | [n, v] => do
+    let n ← hexString? n
+    let v ← hexString? v
+    pure (n, v)
+  | _ => none
+
+def parseLabels? (s : String) : Option Labels :=
+  if s = "_" then some [] else (listOf ',' s).mapM parseLabel?
+
+def parseSets? (s : String) : Option (List Labels) := (listOf '/' s).mapM parseLabels?
+
+def parseClient? (s : String) : Option Client :=
+  match splitChar ':' s with
+  | [mint, maxt, f, l, addr, sets, _raw] => do
+    let mint ← parseInt? mint
+    let maxt ← parseInt? maxt
+    let f ← parseBool? f
+    let l ← parseBool? l
+    let addr ← hexString? addr
+    let sets ← parseSets? sets
+    pure { mint := mint, maxt := maxt, filterOK := f, isLocal := l, addr := addr, extSets := sets }
+  | _ => none
+
+def parseClients? (s : String) : Option (List Client) := (listOf '|' s).mapM parseClient?
+
+def hexOfString (s : String) : String := hexEncode s.toUTF8.toList
+
+def showMatcher (m : Matcher) : String :=
+  s!"{showMType m.ty}:{hexOfString m.name}:{hexOfString m.value}"
+
+def showMatchers (ms : List Matcher) : String := joinWith ";" (ms.map showMatcher)
+
+def showReason : Reason → String
+  | .ok => "ok" | .time => "time" | .localStore => "local" | .addr => "addr"
+  | .extlabels => "extlabels" | .filter => "filter"
+
+def handlePrune : List String → Option String
+  | ["prune.lsm", ms, sets] => do
+    let ms ← parseMatchers? ms
+    let sets ← parseSets? sets
+    pure (if labelSetsMatch ms sets then "1" else "0")
+  | ["prune.store", mint, maxt, ms, dbg, c] => do
+    let mint ← parseInt? mint
+    let maxt ← parseInt? maxt
+    let ms ← parseMatchers? ms
+    let dbg ← parseDbg? dbg
+    let c ← parseClient? c
+    pure (showReason (storeMatches dbg c mint maxt ms))
+  | ["prune.ext", ms, ext] => do
+    let ms ← parseMatchers? ms
+    let ext ← parseLabels? ext
+    pure (match matchesExternalLabels ms ext with
+      | none => "nomatch"
+      | some kept => s!"ok {showMatchers kept}")
+  | ["prune.series", mint, maxt, ms, sel, abort, dbg, cs] => do
+    let mint ← parseInt? mint
+    let maxt ← parseInt? maxt
+    let ms ← parseMatchers? ms
+    let sel ← parseLabels? sel
+    let abort ← parseBool? abort
+    let dbg ← parseDbg? dbg
+    let cs ← parseClients? cs
+    pure (match seriesDecision sel abort dbg cs mint maxt ms with
+      | .nomatch => "none"
+      | .invalid => "invalid"
+      | .unavailable => "unavailable"
+      | .queried [] _ => "none"     -- from outside, "nobody was asked" is all that can be seen
+      | .queried idx kept => s!"ok {showNats "," idx} {showMatchers kept}")
+  | _ => none
+
+end prune
+
+def handle (toks : List String) : String :=
+  match toks with
+  | [] => "bad-op"
+  | op :: _ =>
+    if op.startsWith "prune." then (handlePrune toks).getD "bad-op"
+    else "bad-op"
 
 end Thanos.Driver.Proxy
